@@ -75,15 +75,55 @@ func registerBig(reg func(string, externalFn)) {
 		neg := C.And(C.XorB(x.neg, y.neg), C.Not(C.Eq(p, C.BVConst(0, w))))
 		return in.bigSet(args[0], &bigval{neg: neg, mag: p})
 	})
-	reg(m("Add"), func(in *Interp, fr *frame, args []value) value {
-		C := in.p.C
-		x, y := in.bigOf(args[1]), in.bigOf(args[2])
-		if !x.neg.IsFalse() || !y.neg.IsFalse() {
-			panic(abortPath{"unsupported", "big.Int.Add with possibly negative operands"})
+	// signed addition / subtraction in two's complement of a width that cannot overflow
+	addSub := func(sub bool) externalFn {
+		return func(in *Interp, fr *frame, args []value) value {
+			C := in.p.C
+			x, y := in.bigOf(args[1]), in.bigOf(args[2])
+			a, b := in.bigWiden(x.mag, y.mag)
+			w := a.S.W + 2
+			sx, sy := C.Resize(a, w, false), C.Resize(b, w, false)
+			sx = C.Ite(x.neg, C.BvNeg(sx), sx)
+			yneg := y.neg
+			if sub {
+				yneg = C.Not(yneg)
+			}
+			sy = C.Ite(yneg, C.BvNeg(sy), sy)
+			sum := C.Bin(smt.OpBvAdd, sx, sy)
+			neg := C.Cmp(smt.OpBvSlt, sum, C.BVConst(0, w))
+			return in.bigSet(args[0], &bigval{neg: neg, mag: C.Ite(neg, C.BvNeg(sum), sum)})
 		}
-		a, b := in.bigWiden(x.mag, y.mag)
-		w := a.S.W + 1
-		return in.bigSet(args[0], &bigval{neg: C.False(), mag: C.Bin(smt.OpBvAdd, C.Resize(a, w, false), C.Resize(b, w, false))})
+	}
+	reg(m("Add"), addSub(false))
+	reg(m("Sub"), addSub(true))
+	reg(m("Neg"), func(in *Interp, fr *frame, args []value) value {
+		C := in.p.C
+		x := in.bigOf(args[1])
+		isZero := C.Eq(x.mag, C.BVConst(0, x.mag.S.W))
+		return in.bigSet(args[0], &bigval{neg: C.And(C.Not(x.neg), C.Not(isZero)), mag: x.mag})
+	})
+	reg(m("Abs"), func(in *Interp, fr *frame, args []value) value {
+		x := in.bigOf(args[1])
+		return in.bigSet(args[0], &bigval{neg: in.p.C.False(), mag: x.mag})
+	})
+	reg(m("Lsh"), func(in *Interp, fr *frame, args []value) value {
+		C := in.p.C
+		x := in.bigOf(args[1])
+		n := int(in.concInt(args[2], "big.Int.Lsh shift", 1))
+		if n < 0 || n > 4096 {
+			panic(abortPath{"unsupported", "big.Int.Lsh by a huge amount"})
+		}
+		w := x.mag.S.W + n
+		mag := C.Bin(smt.OpBvShl, C.Resize(x.mag, w, false), C.BVConst(uint64(n), w))
+		return in.bigSet(args[0], &bigval{neg: x.neg, mag: mag})
+	})
+	reg("math/big.NewInt", func(in *Interp, fr *frame, args []value) value {
+		C := in.p.C
+		cell := new(value)
+		x := in.iterm(args[0].(ival))
+		neg := C.Cmp(smt.OpBvSlt, x, C.BVConst(0, 64))
+		in.bigs[cell] = &bigval{neg: neg, mag: C.Ite(neg, C.BvNeg(x), x)}
+		return cell
 	})
 	divmod := func(op smt.Op) externalFn {
 		return func(in *Interp, fr *frame, args []value) value {
